@@ -180,6 +180,20 @@ def c06_search(rng, budget):
                     vb = b.value
                 sa = S.si(ka, va, ua)
                 sb = S.si(kb, vb, ub) if ub else F(vb)
+                disturbed = ''
+                if rng.random() < 0.35:
+                    # the user took copies of the operands with to() -- in the units the operations convert to -- and re-scaled those
+                    # COPIES in place: the operands themselves must be unaffected
+                    for q_, kq_, other_u in ((a, ka, ub if ub and S.base(ka) == S.base(kb) else None), (b, kb if ub else None, ua if ub and S.base(ka) == S.base(kb) else None)):
+                        if kq_ is None:
+                            continue
+                        for u1_ in {S.units(kq_)[0], rng.choice(S.units(kq_))} | ({other_u} if other_u in S.units(kq_) else set()) | ({'Nm'} if kq_ == 'Torque' else set()):
+                            try:
+                                c_ = q_.to(u1_)
+                                c_.to(rng.choice([x_ for x_ in S.units(kq_) if x_ != u1_] or [u1_]), inplace=True)
+                            except Exception:  # noqa
+                                pass
+                    disturbed = ' [copies of the operands had been taken with to() and re-scaled in place]'
                 for op in '+-*/':
                     n += 1
                     try:
@@ -189,7 +203,7 @@ def c06_search(rng, budget):
                     except Exception as e:  # noqa
                         out.append(dict(what=f'({a!r}) {op} ({b!r}) raised {type(e).__name__}', case=dict(op=op, a=[ka, va, ua], b=[kb, vb, ub]), cls='raises'))
                         continue
-                    note = (f' [left operand constructed in {a_from!r} and converted in place]' if a_from else '')
+                    note = (f' [left operand constructed in {a_from!r} and converted in place]' if a_from else '') + disturbed
                     if ub is None:
                         wantk = ka if op in '*/' else None
                         wants = {'*': sa * sb, '/': sa / sb}.get(op)
